@@ -10,7 +10,9 @@ import (
 	"encoding/json"
 	"fmt"
 	"io"
+	"net"
 	"sync"
+	"syscall"
 	"testing"
 	"time"
 
@@ -40,8 +42,10 @@ import (
 
 type Step struct {
 	Actor int    `json:"actor"` // index into good clients (req) or adversaries (others)
-	Kind  string `json:"kind"`  // req | bytes | stall | connectclose | close
-	Hex   string `json:"hex,omitempty"`
+	Kind  string `json:"kind"`  // req | bytes | stall | connectclose | close | tick | accepterr
+	// (accepterr: the next accept of the listener fails with a transient error - the descriptor table
+	// is full, or the peer gave up before it was accepted; the listener itself stays open)
+	Hex string `json:"hex,omitempty"`
 }
 
 type Scenario struct {
@@ -167,6 +171,9 @@ func Exec(t *testing.T, sc Scenario, r *evid.Run) *evid.Failure {
 			case "tick":
 				time.Sleep(kaPeriod + time.Millisecond)
 				srv.Tick.Tick()
+			case "accepterr":
+				lastWasHostile = true
+				srv.L.FailAccept(&net.OpError{Op: "accept", Net: sc.Kind, Err: []error{syscall.EMFILE, syscall.ECONNABORTED, syscall.ENFILE}[st.Actor%3]})
 			case "close":
 				lastWasHostile = true
 				_ = bad[st.Actor%sc.Bad].Close()
@@ -343,6 +350,9 @@ func genHostile(t *rapid.T, stream bool) []byte {
 func gen(t *rapid.T) Scenario {
 	sc := Scenario{Kind: rapid.SampledFrom([]string{"tcp", "dtls"}).Draw(t, "kind"), Good: rapid.IntRange(2, 4).Draw(t, "good"), Bad: rapid.IntRange(1, 3).Draw(t, "bad")}
 	kinds := []string{"req", "req", "req", "bytes", "bytes", "bytes", "stall", "connectclose", "close"}
+	if rapid.IntRange(0, 3).Draw(t, "accepterrs") == 0 {
+		kinds = append(kinds, "accepterr")
+	}
 	if rapid.IntRange(0, 2).Draw(t, "keepalive") == 0 {
 		sc.KeepAlive = rapid.IntRange(1, 2).Draw(t, "retries")
 		kinds = append(kinds, "tick", "tick", "tick", "tick")
@@ -358,6 +368,8 @@ func gen(t *rapid.T) Scenario {
 			st.Hex = hex.EncodeToString(genHostile(t, sc.Kind == "tcp"))
 		case "close":
 			st.Actor = rapid.IntRange(0, sc.Bad-1).Draw(t, "who")
+		case "accepterr":
+			st.Actor = rapid.IntRange(0, 2).Draw(t, "errno")
 		}
 		sc.Steps = append(sc.Steps, st)
 	}
@@ -401,7 +413,7 @@ func TestCheck(t *testing.T) {
 	engines = append(engines, stallEngine(r))
 	engines = append(engines, udpsrv.Engine(r, []string{"twolocal", "closed", "keepalive", "keepalive", "idle"}, 30, 500))
 	r.Main(evid.Meta{
-		Rule:        "stall: the library's own TCP and TLS servers on loopback sockets while 1-4 peers connect and stall (silent, or after the first bytes of a handshake); 1-3 well-behaved clients that connect afterwards are served within seconds (real time; a failure counts only if it reproduces three times in a row). Others: isolation: tcp/server and dtls/server on in-memory listeners in a synctest bubble; 2-4 well-behaved library clients issue numbered requests to an echo handler, interleaved with 1-3 adversaries that write arbitrary bytes, mutated and truncated valid messages, oversize declarations, responses with unknown tokens, unsolicited ACK/RST/signalling messages, their own valid requests, connect-and-stall (a handshake that never completes), connect-and-close and closes; every step is followed by quiescence. Metamorphic oracle: every request of a well-behaved client is answered with its own echo (what it would see without the adversaries); Serve has not returned and a client connecting afterwards is served; OnNewConn reported exactly one connection per well-behaved remote address; the handler saw each client's requests on that client's connection and in the order they were sent. real: the loopback udp/server with udp.Dial clients, raw hostile sockets and unicast Discover with several responders (real time), also two concurrent Discover calls with one token. " + udpsrv.Rule + ".  Non-trivial = hostile input delivered between two requests of a well-behaved client; distinct by scenario",
+		Rule:        "stall: the library's own TCP and TLS servers on loopback sockets while 1-4 peers connect and stall (silent, or after the first bytes of a handshake); 1-3 well-behaved clients that connect afterwards are served within seconds (real time; a failure counts only if it reproduces three times in a row). Others: isolation: tcp/server and dtls/server on in-memory listeners in a synctest bubble; 2-4 well-behaved library clients issue numbered requests to an echo handler, interleaved with 1-3 adversaries that write arbitrary bytes, mutated and truncated valid messages, oversize declarations, responses with unknown tokens, unsolicited ACK/RST/signalling messages, their own valid requests, connect-and-stall (a handshake that never completes), connect-and-close and closes, and in a quarter of the cases accept calls of the listener that fail with a transient error (EMFILE, ENFILE, ECONNABORTED) while the listener stays open; every step is followed by quiescence. Metamorphic oracle: every request of a well-behaved client is answered with its own echo (what it would see without the adversaries); Serve has not returned and a client connecting afterwards is served; OnNewConn reported exactly one connection per well-behaved remote address; the handler saw each client's requests on that client's connection and in the order they were sent. real: the loopback udp/server with udp.Dial clients, raw hostile sockets and unicast Discover with several responders (real time), also two concurrent Discover calls with one token. " + udpsrv.Rule + ".  Non-trivial = hostile input delivered between two requests of a well-behaved client; distinct by scenario",
 		Assumptions: []string{"a slow handler starving other peers is not in the statement's list and is not generated", "real-socket sending rates stay far below loopback buffer limits"},
 		Floor:       200,
 	}, engines...)
